@@ -285,6 +285,11 @@ def c05(res):
                 for pz in ((0, 1) if (q or t == 1 or large) else (0, 1, 2)):
                     out.append(gg.base_cfg(s, t, light=True, market_log=True, perturb=(rng.randint(1, 2 ** 31) if pz else 0), watchdog_ms=60000))
         out.append(gg.base_cfg("ondemand", 2, light=True, market_log=True, watchdog_ms=60000))
+        # on-demand with several workers and requests that nobody can serve (not pending / never pending) queued before
+        # run_to_completion: every worker must still get to hear of it
+        for t in ((2, 4) if q else (2, 3, 4, 8)):
+            out.append(gg.base_cfg("ondemand", t, light=True, market_log=True, watchdog_ms=60000,
+                                   requests=[g["n"], 1, max(1, g["n"] - 1), 2, g["n"] // 2 + 1]))
         return out
     runs, cov2 = checker_runs(res, "C05", graphs, cfgs, ["joined", "edges", "subset", "once", "complete", "verdicts", "stop_reason"], wd, "f4")
     # insert-if-absent arbitration: a ladder whose two rails are walked side by side by two workers (rendezvous in
